@@ -2,7 +2,7 @@
 from vlib.common import *
 
 META = {
-    "text": "Lean theorems (bulk_positional, bulk_order, bulk_stops, bulk_flag, bulk_continue_all) about Model.Bulk.processBulk for every element list, "
+    "text": "Lean theorems (bulk_positional, bulk_order, bulk_stops, bulk_stops_unless_requested, cont_flag_iff, bulk_flag, bulk_continue_all) about Model.Bulk.processBulk for every element list, "
             "backend behaviour and flag value; the model is tied to the real v2 router/bulkHandler/ProcessBulk by a seeded differential over a scripted "
             "backend, and an independent oracle evaluates the property on the implementation's own outputs.",
     "note": "Trusted: Lean kernel (axioms propext/Classical.choice/Quot.sound at most), the abstraction of an element to (action, decodable?, backend outcome), "
@@ -12,6 +12,16 @@ META = {
 }
 
 KNOWN_ACTIONS = {"CREATE_TRANSACTION", "ADD_METADATA", "REVERT_TRANSACTION", "DELETE_METADATA"}
+
+
+def requested(inp):
+    """is continue-on-failure requested?  When the input carries the spelling the client put on the wire, the property's reading of it
+    (written here independently of the Lean model): only 1 / true, in any letter case, request it; anything else, the bare parameter and
+    the absent parameter do not."""
+    raw = inp.get("cont_raw")
+    if raw is None:
+        return inp["cont"]
+    return raw.lower() in ("1", "true")
 
 
 def elem_fails(e):
@@ -24,7 +34,7 @@ def oracle(inp, out):
     v = []
     if "panic" in out:
         return [({"class": "panic"}, "bulk handler panicked: %s" % out["panic"])]
-    elems, cont = inp["elems"], inp["cont"]
+    elems, cont = inp["elems"], requested(inp)
     if inp.get("broken"):
         if out["calls"] or out["results"] or out["status"] != 400:
             return [({"class": "rejected-body-executed"}, "a body that is not JSON led to calls/results/status %s" % out["status"])]
@@ -105,7 +115,7 @@ def run(ctx):
     ctx.cov["evaluations"] = len(inputs)
     ctx.cov["distinct_nontrivial"] = nontrivial
     ctx.cov["rule"] = ("random bulk bodies (1..%d elements; known/unknown actions; decodable/undecodable data; scripted backend outcomes; "
-                       "both continueOnFailure values; per-element idempotency keys); non-trivial = distinct body with a failing or "
+                       "both continueOnFailure values, a third of the requests spelling the flag in one of 22 ways (true/TRUE/1/false/0/no/False/yes/on/bare/empty/padded …); per-element idempotency keys); non-trivial = distinct body with a failing or "
                        "unknown element that is not in last position") % (5 if ctx.quick else 8)
     ctx.cov["samples"] = [{"input": i, "impl": impl.get(i["id"])} for i in inputs[1:4]]
     dist = {}
